@@ -28,6 +28,7 @@ def observe(lib, M) -> List[Dict[str, Any]]:
         if isinstance(b, M.DuplicateBlockKeyBlock):
             d["dup"] = True
             d["dup_key"] = b.key
+            d["dup_prev_held"] = any(x is b.previous_block for x in lib.blocks)
             inner = b.ignore_error_block
         if isinstance(inner, M.DuplicateFieldKeyBlock):
             d["cls"] = "dupfield"
